@@ -25,7 +25,13 @@ HARNESSES = [
        scenarios=[{'TYPE': 0}, {'TYPE': 1}, {'TYPE': 2}], timeout=600,
        desc='parallel_for(first,last,step,f): iteration count and index arithmetic of parallel_for_impl + parallel_for_body_wrapper',
        bounds={'first,last,step': 'all values of size_t / int / long with step>0 (signed: last-first representable)', 'chunk': 'any [cb,ce) of the iteration space with <=3 elements'}),
-  dict(name='taskstep_simple', unit='loop0', harness='h_loop.c', defines={'PART': 0, 'ROOT': 0}, scenarios=[{'K': 2, 'P': 2}], timeout=900, cbmc=['--unwind', '12', '--object-bits', '12'],
+  dict(name='taskstep_simple', unit='loop0', harness='h_loop.c', defines={'PART': 0, 'ROOT': 0}, scenarios=[{'K': 1, 'P': 2}], timeout=900, cbmc=['--unwind', '8', '--object-bits', '12'],
+       desc='x', bounds={}),
+  dict(name='taskstep_auto', unit='loop1', harness='h_loop.c', defines={'PART': 1, 'ROOT': 0}, scenarios=[{'K': 1, 'P': 2}], timeout=900, cbmc=['--unwind', '8', '--object-bits', '12'],
+       desc='x', bounds={}),
+  dict(name='taskstep_static', unit='loop2', harness='h_loop.c', defines={'PART': 2, 'ROOT': 0}, scenarios=[{'K': 1, 'P': 2}], timeout=900, cbmc=['--unwind', '8', '--object-bits', '12'],
+       desc='x', bounds={}),
+  dict(name='taskstep_affinity', unit='loop3', harness='h_loop.c', defines={'PART': 3, 'ROOT': 0}, scenarios=[{'K': 1, 'P': 2}], timeout=900, cbmc=['--unwind', '8', '--object-bits', '12'],
        desc='x', bounds={}),
 ]
 OUTSIDE = []
